@@ -38,11 +38,13 @@ HARNESSES = [
 ]
 GROUPS = {"cb": "check_cb", "wrap": "check_wrap", "pool": "check_pool", "lin": "check_lin"}
 EXPLAIN = {"cb": "explain_cb", "wrap": "explain_wrap", "pool": "explain_pool", "lin": "explain_lin"}
-CASES = {"quick": 600, "thorough": 20000}
+CASES = {"quick": 1600, "thorough": 20000}
 RULE = ("cases: random policies (thresholds 1..100, count/time window 1..12, minimum 0..12, permitted 0..6, wait/maxWait/slow durations) "
         "x histories of acquire / record(success|failure|slow, own, stale or foreign id) / clock advance (none, sub-second, second "
         "boundary, multi-second, beyond window, exact wait/maxWait deadlines); non-trivial = non-empty history; classes add: "
         "reached OPEN(+1) reached HALF_OPEN(+2) stale record(+4) time-based(+8) recovery to CLOSED(+16); "
+        "groups wrap (resilience wrapper: handler nil/error/panic) and pool (Proxy: 2xx/transport error/failure code) likewise; "
+        "group lin (thorough, -race): 2-5 goroutines, <= 10 stamped operations, linearization search; "
         "distinct = distinct (group, input) hashes among non-trivial cases")
 TRUSTED_BASE = [
     "model coq/model/CB.v is hand-written; tied to pkg/util/circuitbreaker, pkg/resilience and pkg/filters/proxy by the per-run correspondence (sampled)",
